@@ -392,3 +392,94 @@ package commitlog
 // the only writers of the HW: the monotone setter, recovery (open), the constructor and the test-only override
 //@ writers commitLog.hw serves C03: (*commitLog).SetHighWatermark, (*commitLog).OverrideHighWatermark, (*commitLog).open, New
 //@ callers (*commitLog).OverrideHighWatermark serves C03:
+
+// ---------------------------------------------------------------------------------------------
+// Compaction (property C08): a message that must survive is written, unchanged, to the cleaned segment
+//
+// key table: an entry only ever moves forward (the latest offset per key), and only committed offsets enter it
+//@ func (*keyOffset).set serves C08
+//@   assumes k != nil
+//@   ensures [max] k.offset == (offset > old(k.offset) ? offset : old(k.offset))
+//@ func (*keyOffset).get serves C08
+//@   assumes k != nil
+//@   modifies nothing
+//@   ensures result == k.offset
+//@ func (*compactCleaner).scanSegments serves C08
+//@   loop 2 invariant err == nil ==> len(ms) > 28
+//@   call LoadOrStore requires [only-committed-offsets] offset <= hw
+//@   call (*keyOffset).set requires [latest-offset-recorded] arg1 == offset
+
+// message set header: offset(8) timestamp(8) leader epoch(8) size(4), big endian
+//@ func (messageSet).Offset serves C08, C01
+//@   modifies nothing
+//@   ensures len(ms) >= 28 ==> result == int64(be64(ms, 0))
+//@ func (messageSet).LeaderEpoch serves C08, C01
+//@   modifies nothing
+//@   ensures len(ms) >= 28 ==> result == be64(ms, 16)
+// a scanned message set is the stored header followed by a non-empty message (assumed: what the segment file holds)
+//@ assume func (*segmentScanner).Scan
+//@   returns (ms, e, err)
+//@   ensures err == nil ==> len(ms) > 28 && e != nil
+//@   ensures forall x *segment :: x.lastOffset == old(x.lastOffset) && x.BaseOffset == old(x.BaseOffset) && x.position == old(x.position) && x.firstOffset == old(x.firstOffset)
+//@ func newSegmentScanner serves C08
+//@   ensures result != nil && result.s == segment
+//@ func (*segment).Cleaned serves C08
+//@   returns (c, err)
+//@   requires s != nil
+//@   ensures err == nil ==> c != nil && c.BaseOffset == old(s.BaseOffset)
+// entriesForMessageSet: one index entry per message, the first one for the set's own offset at the given position
+//@ func entriesForMessageSet serves C08
+//@   ensures [one-per-message] len(ms) > 28 ==> len(result) >= 1
+//@   ensures [nonnil] forall j int :: 0 <= j && j < len(result) ==> result[j] != nil
+//@   ensures [first-entry] len(ms) > 28 ==> result[0].Offset == int64(be64(old(ms), 0)) && result[0].Position == basePos && result[0].LeaderEpoch == be64(old(ms), 16)
+//@   ensures [log-untouched] forall x *segment :: x.lastOffset == old(x.lastOffset) && x.BaseOffset == old(x.BaseOffset) && x.position == old(x.position) && x.firstOffset == old(x.firstOffset)
+//@   loop 1 invariant fresh(entries) && (forall j int :: 0 <= j && j < len(entries) ==> entries[j] != nil && allocated(entries[j]))
+//@   loop 1 invariant len(old(ms)) > 28 && (len(entries) == 0 ==> ms == old(ms) && n == 0)
+//@   loop 1 invariant len(entries) >= 1 ==> entries[0].Offset == int64(be64(old(ms), 0))
+//@   loop 1 invariant len(entries) >= 1 ==> entries[0].Position == basePos
+//@   loop 1 invariant len(entries) >= 1 ==> entries[0].LeaderEpoch == be64(old(ms), 16)
+//@   loop 1 invariant forall x *segment :: x.lastOffset == old(x.lastOffset) && x.BaseOffset == old(x.BaseOffset) && x.position == old(x.position) && x.firstOffset == old(x.firstOffset)
+
+// cleanSegment: in every iteration a message that the property says must survive (no key, latest for its key,
+// or at/above the high watermark) has been written - successfully - to the cleaned segment; what is written is the
+// scanned message set itself, indexed at the cleaned segment's position; the cleaned segment replaces this one.
+//@ ghost var wrote bool
+//@ func (*compactCleaner).cleanSegment serves C08
+//@   requires seg != nil && keyOffsets != nil && epochCache != nil && wfEpochs(epochCache)
+//@   loop 1 invariant cleaned != nil && wfEpochs(epochCache) && (err == nil ==> len(ms) > 28)
+//@   ensures [epochs-wf] wfEpochs(epochCache)
+//@   ghost at loop 1: ghost.wrote := false
+//@   ghost after call WriteMessageSet: ghost.wrote := ret0 == nil
+//@   loop 1 backedge requires [survivor-kept] (isnil(key) || offset == latestOffset || offset >= hw) ==> ghost.wrote
+//@   call entriesForMessageSet requires [indexed-as-written] arg1 == ms
+//@   call WriteMessageSet requires [written-unchanged] arg0 == cleaned && arg1 == ms && arg2 == entries
+//@   call (*leaderEpochCache).Assign requires [epoch-of-survivor] arg1 == leaderEpoch && arg2 == offset
+//@   call (*segment).Replace requires [replaces-source] arg0 == cleaned && arg1 == seg
+//@   call cleanupEmptySegment requires [drops-source] arg0 == cleaned && arg1 == seg
+
+// compact: the newest segment is never cleaned and stays last; every other segment is cleaned with the same table and HW
+//@ func (*compactCleaner).compact serves C08
+//@   returns (compacted, epochCache, removed, err)
+//@   requires c != nil && len(segments) >= 1
+//@   assumes forall i int, j int :: 0 <= i && i < j && j < len(segments) ==> segments[i] != segments[j]
+//@   assumes forall i int :: 0 <= i && i < len(segments) ==> segments[i] != nil
+//@   call cleanSegment requires [newest-untouched] arg1 != segments[len(segments)-1]
+//@   call cleanSegment requires [same-table-and-hw] arg2 == keyOffsets && arg3 == hw
+//@   call scanKeys requires [table-of-this-log] arg1 == hw && arg2 == segments
+//@   ensures [newest-kept] err == nil ==> len(compacted) >= 1 && compacted[len(compacted)-1] == old(segments[len(segments)-1])
+//@   loop 1 invariant -1 <= rangeindex && rangeindex < len(segments) - 1
+//@   loop 1 invariant fresh(compacted)
+//@   loop 1 invariant keyOffsets != nil && epochCache != nil
+//@   loop 1 invariant wfEpochs(epochCache)
+//@   loop 1 invariant forall i int :: 0 <= i && i < len(segments) ==> segments[i] == old(segments[i])
+//@   loop 2 invariant epochCache != nil && wfEpochs(epochCache) && (err == nil ==> len(ms) > 28) && len(compacted) >= 1 && compacted[len(compacted)-1] == old(segments[len(segments)-1])
+//@ func newLeaderEpochCacheNoFile serves C08
+//@   ensures result != nil && fresh(result) && len(result.epochOffsets) == 0
+//@ func (*compactCleaner).scanKeys serves C08
+//@   ensures result != nil
+//@   ensures forall x *segment :: x.lastOffset == old(x.lastOffset) && x.BaseOffset == old(x.BaseOffset) && x.position == old(x.position) && x.firstOffset == old(x.firstOffset)
+//@ func (*compactCleaner).Compact serves C08
+//@   returns (out, epochCache, err)
+//@   requires c != nil
+//@   ensures [single-segment-untouched] len(segments) <= 1 ==> out == segments && err == nil
+//@   call compact requires [whole-log] len(segments) >= 2 && arg1 == hw && arg2 == segments
